@@ -73,12 +73,30 @@ func TestJudge(t *testing.T) {
 		{" \n" + valid, "", errors.New("x"), "untyped-error:"},
 		{tb + "\n" + te + "\n" + strings.Repeat("\n", 2000), "", io.EOF, ""},
 	} {
-		v := judge([]byte(c.text), []byte(c.out), c.err)
+		after := []afterRead{{0, c.err}, {0, c.err}}
+		v := judge([]byte(c.text), []byte(c.out), c.err, after)
 		if v.modelBug != "" {
 			t.Errorf("judge(%q): model disagreement: %s", c.text, v.modelBug)
 		}
 		if (c.keyPrefix == "") != (v.key == "") || !strings.HasPrefix(v.key, c.keyPrefix) {
 			t.Errorf("judge(%q, %q, %v): key %q, want prefix %q", c.text, c.out, c.err, v.key, c.keyPrefix)
+		}
+	}
+}
+
+func TestJudgeAfterEnd(t *testing.T) {
+	valid := []byte(tb + "\nQUI=\n" + te + "\n")
+	for _, c := range []struct {
+		after []afterRead
+		key   string
+	}{
+		{[]afterRead{{0, io.EOF}, {0, io.EOF}}, ""},
+		{[]afterRead{{0, io.EOF}, {2, nil}}, "data-after-eof:valid"},
+		{[]afterRead{{0, errors.New("x")}}, "error-after-eof:valid"},
+		{[]afterRead{{0, nil}}, "error-after-eof:valid"},
+	} {
+		if v := judge(valid, []byte("AB"), io.EOF, c.after); v.key != c.key {
+			t.Errorf("after %v: key %q, want %q", c.after, v.key, c.key)
 		}
 	}
 }
